@@ -40,6 +40,16 @@ def check_seq(parts, variant="shipped"):
 def statement_pool(r, tier):
     pool = list(xonshgen.XONSH_STMTS) + list(corpus.PY_STMTS)
     pool += ["w = p'/opt/' pf'{name}/bin'\n", "s = 'plain'\n", "![reset!]\n", "![cd! ]\n", "f!(x, [1, 2] y)\n", "print!(some raw text)\n", "with! ctx as c:\n    body line\n", "with! a:\n    # c\n    b\n\n    c\n", "$(echo! x)\n", "v = f!(a[0])\n", "pf'{a}'\n", "x = f'{y}' 'z'\n", "$[ls] ; t = 1\n", "q = `a.*` + g`b*`\n", "h?\n", "h??\n", "a && b || c\n", "with! m: one liner\n", "if $X:\n    $(ls)\nelse:\n    ![pwd]\n", "def f():\n    return !(x)\n", "x = '''a\nb'''\n", "y = (1,\n  2)\n", "z = 1 \\\n  + 2\n", "# just a comment\n", "\n", "x = 1  # trailing\n", "class K:\n    '''doc'''\n\n    def m(self): pass\n"]
+    # statements whose LAST physical line is special: a continuation inside brackets in an indented block, a lone form feed
+    # line, a block ending inside a multi-line token, trailing blank/comment lines (what the tokenizer carries across lines)
+    pool += ["if x:\n    y = (1, \\\n         2)\n", "if x:\n    y = [1,\n  2]\n", "def f():\n    pass\n\x0c\n", "a = [1,\x0c 2]\n", "while c:\n    s = '''a\n  b'''\n",
+             "if x:\n    y = f'''{a + \\\n b}'''\n", "if x:\n    y = f'''{a}\n{b}'''\n", "for i in j:\n    k = 1 \\\n        + 2\n", "if x:\n    y = {1:\n 2}\n", "def g():\n    return (\n)\n",
+             "if x:\n    pass\n    # trailing comment\n", "if x:\n    pass\n\n\n", "with a:\n    b = $(ls \\\n -l)\n" if False else "if q:\n    r = (1 +\n# c\n 2)\n"]
+    from harness.gen import mutate
+
+    for i, s in enumerate(corpus.PY_STMTS):
+        lay = ("backslash", "formfeed", "tabs", "comments")[i % 4]
+        pool.append(mutate.layout(s, lay, r))
     for _ in range(40 if tier == "quick" else 600):
         g = pyprog.gen_program(r, fstrings=True, maxdepth=3, nstmts=1)
         if g:
